@@ -114,6 +114,9 @@ def _gate_atoms(fn: FunctionInfo, name_param: str, table_text: str):
             if rhs == f"{self_name}.recommended":
                 return ("in_recommended", pol)
             return None
+        if isinstance(e, ast.Call) and isinstance(e.func, ast.Name) and e.func.id == "isinstance" and len(e.args) == 2 \
+                and norm(e.args[0]) == name_param and norm(e.args[1]) == "str":
+            return ("well_typed", True)
         t = norm(e)
         if t == f"{self_name}.allowed":
             return ("allowed_truthy", True)
@@ -128,13 +131,15 @@ def _gate_atoms(fn: FunctionInfo, name_param: str, table_text: str):
 
 
 def _check_gate(ctx, fn: FunctionInfo, name_param: str, table_text: str, returns_lookup: bool) -> bool:
-    atoms = ["supported", "allowed_truthy", "in_allowed", "in_recommended"]
+    atoms = ["supported", "allowed_truthy", "in_allowed", "in_recommended", "well_typed"]
     table = truth_table(fn, atoms, _gate_atoms(fn, name_param, table_text))
     good = True
     for vals, outs in table.items():
-        sup, at, ia, ir = vals
-        want_ok = sup and ((at and ia) or ((not at) and ir))
-        inst = f"{fn.short} :: supported={sup} allowed-truthy={at} in-allowed={ia} in-recommended={ir}"
+        sup, at, ia, ir, wt = vals
+        if not wt and (sup or ia or ir):
+            continue  # a value that is not a str is in no table of names
+        want_ok = wt and sup and ((at and ia) or ((not at) and ir))
+        inst = f"{fn.short} :: well-typed={wt} supported={sup} allowed-truthy={at} in-allowed={ia} in-recommended={ir}"
         if not outs:
             ctx.fail("R05.3", fn, fn.node, "no path of the gate covers this combination", construct=inst.split(" :: ")[1])
             good = False
